@@ -241,6 +241,197 @@ def ob_loop_shared():
     return c05.ob_loop_inductive("guard_and_body")
 
 
+@obligation("interrupt/at_any_statement_of_an_iteration", params=[{"iteration": "success"}, {"iteration": "skipped"}], timeout=600,
+            desc="asynchronous interruption: from an arbitrary loop-head state (count c, merged value v, symbolic rep_max) one iteration of "
+                 "the repetition loop is executed with KeyboardInterrupt raised before the j-th interpreted statement, for EVERY j (statements "
+                 "of the loop body and of everything it calls: merge_all_results, Result.merge, the skip branch, the periodic save hook): "
+                 "the interrupt escapes, and every state that is handed to save_partial_results / save_partial_results_maybe on the way out "
+                 "is consistent - its repetition count equals the number of repetitions merged into it - so a file written while leaving can "
+                 "never make the restart double-count or lose a repetition")
+def ob_interrupt_any_statement(iteration):
+    import ast
+    from . import C05 as c05
+
+    def mk_runner(c, saved):
+        from pyphysim.simulations.runner import SimulationRunner, SkipThisOne
+        from pyphysim.simulations.results import SimulationResults, Result
+
+        class R_(SimulationRunner):
+            def __init__(self):
+                super().__init__(read_command_line_args=False)
+                self.rep_max = 7
+                self.params.add("a", [1, 2])
+                self.params.set_unpack_parameter("a")
+                self.update_progress_function_style = None
+                self.trace = []
+
+            def _run_simulation(self, p):
+                if iteration == "skipped":
+                    self.trace.append("skip")
+                    raise SkipThisOne("this repetition is skipped")
+                x = c.fresh_var("x", "real")
+                self.trace.append(x)
+                res = SimulationResults()
+                res.add_new_result("v", Result.SUMTYPE, x)
+                return res
+        return R_(), c.var("v0", "real")
+
+    def body(c, it):
+        it.native_prefixes = list(NATIVE)
+        R = c.var("rep_max", "int")
+        c0 = c.var("count", "int")
+        c.assume((R >= 1) & (c0 >= 0) & (c0 < R))
+        c.inputs.update(rep_max=R, count=c0)
+        goals = []
+        fn = it.ifunc_from_spec("pyphysim.simulations.runner:SimulationRunner._simulate_for_current_params_common")
+        loops = [n for n in ast.walk(fn.node) if isinstance(n, ast.While) and "rep_max" in ast.unparse(n.test)]
+        if len(loops) != 1:
+            return [Goal("the repetition loop (one while loop guarded by rep_max) is found", False)]
+        j = 0
+        fired_any = False
+        while j < 400:
+            saved = []
+            r, v0 = mk_runner(c, saved)
+            r._simulate_common_setup()
+            plist = r.params.get_unpacked_params_list()
+            r.rep_max = R
+            from pyphysim.simulations.results import SimulationResults, Result
+            saver = r._simulation_results_saver
+
+            def load(current_params, v0=v0):
+                s_ = SimulationResults()
+                s_.set_parameters(current_params)
+                rr = Result("v", Result.SUMTYPE)
+                rr._value = v0
+                rr.num_updates = c0
+                s_.add_result(rr)
+                s_.current_rep = c0
+                return s_
+            saver.load_partial_results = load
+            handed = []
+
+            def record(current_rep, current_params, current_sim_results, handed=handed):
+                d = _fld(current_sim_results, "_results")
+                handed.append((current_rep, _fld(d["v"][-1], "num_updates")))
+                return "file"
+            saver.save_partial_results_maybe = record
+            saver.save_partial_results = record
+            r._keep_going = lambda p, res, rep: True
+            st = {"in_body": False, "n": 0, "fired": False}
+
+            def loop_hook(interp, s_, frame, st=st):
+                if not interp.truth(interp.eval(s_.test, frame)):
+                    return
+                st["in_body"] = True
+                try:
+                    interp.exec_block(s_.body, frame)
+                finally:
+                    st["in_body"] = False
+                raise c05._OneIteration()
+
+            def stmt_hook(interp, s_, frame, st=st, j=j):
+                if st["in_body"] and not st["fired"]:
+                    if st["n"] == j:
+                        st["fired"] = True
+                        raise PyRaise(KeyboardInterrupt())
+                    st["n"] += 1
+            it.loop_hooks[id(loops[0])] = loop_hook
+            it.stmt_hook = stmt_hook
+            escaped = None
+            try:
+                it.call(it.getattr(r, "_simulate_for_current_params_serial"), [plist[0]])
+            except c05._OneIteration:
+                pass
+            except PyRaise as pr:
+                escaped = pr.exc
+            finally:
+                it.stmt_hook = None
+            if not st["fired"]:
+                break              # the iteration has fewer than j statements: all interrupt points are covered
+            fired_any = True
+            goals.append(Goal("interrupt before statement %d of the iteration: KeyboardInterrupt escapes" % j, isinstance(escaped, KeyboardInterrupt)))
+            for (rep, nup) in handed:
+                goals.append(Goal("interrupt before statement %d: a state handed to the saver has count == merged repetitions" % j,
+                                  lift(rep) == lift(nup)))
+            j += 1
+        goals.append(Goal("at least 5 interrupt points were exercised (got %d)" % j, fired_any and j >= 5))
+        return goals
+
+    def replay(mv):
+        # native: sys.settrace raises KeyboardInterrupt at every line event of one iteration of the real loop; then the restart
+        import sys
+        import tempfile
+        import os as _os
+        from pyphysim.simulations.runner import SimulationRunner
+        from pyphysim.simulations.results import SimulationResults, Result
+        import pyphysim.simulations.runner as rmod
+        import pyphysim.simulations.results as resmod
+        files = {_os.path.realpath(rmod.__file__), _os.path.realpath(resmod.__file__)}
+
+        class Rn(SimulationRunner):
+            def __init__(self, d):
+                super().__init__(read_command_line_args=False)
+                self.rep_max = 4
+                self.params.add("a", [1])
+                self.params.set_unpack_parameter("a")
+                self.update_progress_function_style = None
+                self.set_results_filename(_os.path.join(d, "res"))
+                self.calls = 0
+
+            def _run_simulation(self, p):
+                self.calls += 1
+                s_ = SimulationResults()
+                s_.add_new_result("v", Result.SUMTYPE, 1)
+                return s_
+        try:
+            bad = None
+            for at in range(1, 400):
+                with tempfile.TemporaryDirectory() as d:
+                    cwd = _os.getcwd()
+                    _os.chdir(d)
+                    try:
+                        r1 = Rn(d)
+                        cnt = {"n": 0, "done": False}
+
+                        def tracer(frame, event, arg):
+                            if _os.path.realpath(frame.f_code.co_filename) not in files:
+                                return None
+
+                            def local(frame, event, arg):
+                                if event == "line" and r1.calls >= 1 and not cnt["done"]:
+                                    cnt["n"] += 1
+                                    if cnt["n"] == at:
+                                        cnt["done"] = True
+                                        raise KeyboardInterrupt()
+                                return local
+                            return local
+                        sys.settrace(tracer)
+                        try:
+                            r1.simulate()
+                            interrupted = False
+                        except KeyboardInterrupt:
+                            interrupted = True
+                        finally:
+                            sys.settrace(None)
+                        if not interrupted:
+                            break
+                        r2 = Rn(d)
+                        r2.simulate()
+                        v = r2.results["v"][0]
+                        if r2.runned_reps != [4] or v.get_result() != 4 or v.num_updates != 4:
+                            bad = {"interrupted at traced line event": at, "after restart runned_reps": r2.runned_reps,
+                                   "merged value": v.get_result(), "updates": v.num_updates, "expected": "4 repetitions, each counted once"}
+                            break
+                    finally:
+                        _os.chdir(cwd)
+            if bad:
+                return dict(bad, confirmed=True)
+            return {"confirmed": False, "note": "real runner: an interrupt at every traced line of the loop resumes to exactly rep_max"}
+        except Exception as e:
+            return {"confirmed": False, "error": "replay crashed: %r" % (e,)}
+    return verify(body, check_side=False, timeout_ms=20000, replay=replay if iteration == "success" else None)
+
+
 # ------------------------------------------------------------------ refusal
 def _refusal_replay(model):
     """the same cases on the real classes (load_from_file replaced by a stub handing out the stored object)"""
@@ -259,6 +450,12 @@ def _refusal_replay(model):
                  ("other grid values", mk(dict(base, SNR=np.array([0, 6, 10])))[1], mk(base)[1], "ValueError"),
                  ("fixed array parameter of another length", mk(dict(base, taps=np.array([1.0, 0.5])))[1], mk(base)[1], "ValueError"),
                  ("fixed array parameter with another entry", mk(dict(base, taps=np.array([1.0, 0.5, 0.125])))[1], mk(base)[1], "ValueError")]
+        cases += [("tiny fixed float differs (noise power 1e-9 vs 4e-9)", mk(dict(base, nv=4e-9))[1], mk(dict(base, nv=1e-9))[1], "ValueError"),
+                  ("fixed float differs by 1e-5 relative (carrier 2.4e9 vs 2.40002e9)", mk(dict(base, fc=2.40002e9))[1], mk(dict(base, fc=2.4e9))[1], "ValueError"),
+                  ("fixed float differs in the last bit", mk(dict(base, g=float(np.nextafter(0.3, 1))))[1], mk(dict(base, g=0.3))[1], "ValueError"),
+                  ("float array entry differs in the last bit", mk(dict(base, taps=np.array([1.0, 0.5, float(np.nextafter(0.25, 1))])))[1], mk(base)[1], "ValueError"),
+                  ("float grid differs by 1e-9 at this index", mk(dict(base, SNR=np.array([0.0, 5.0 + 1e-9, 10.0])))[1],
+                   mk(dict(base, SNR=np.array([0.0, 5.0, 10.0])))[1], "ValueError")]
         rm = "rep_max"
         for nm in sorted({rm[i:j] for i in range(len(rm)) for j in range(i + 1, len(rm) + 1)} - {rm}) + ["rep_max_", "xrep_max", "REP_MAX", "repmax"]:
             b2 = dict(base)
@@ -312,6 +509,15 @@ def ob_refusal():
                  ("extra key", mk(dict(base, extra=1))[1], "ValueError"),
                  ("fixed array parameter of another length", mk(dict(base, taps=np.array([1.0, 0.5])))[1], "ValueError"),
                  ("fixed array parameter with another entry", mk(dict(base, taps=np.array([1.0, 0.5, 0.125])))[1], "ValueError"),
+                 # values of another experiment that are CLOSE to the current ones are still other parameters (floats are compared exactly)
+                 ("tiny fixed float differs (noise power 1e-9 vs 4e-9)", (mk(dict(base, nv=4e-9))[1], mk(dict(base, nv=1e-9))[1]), "ValueError"),
+                 ("fixed float differs by 1e-5 relative (carrier 2.4e9 vs 2.40002e9)", (mk(dict(base, fc=2.40002e9))[1], mk(dict(base, fc=2.4e9))[1]), "ValueError"),
+                 ("fixed float differs in the last bit", (mk(dict(base, g=float(np.nextafter(0.3, 1))))[1], mk(dict(base, g=0.3))[1]), "ValueError"),
+                 ("numpy float32 scalar differs slightly", (mk(dict(base, g=np.float32(0.5) + np.float32(1e-6)))[1], mk(dict(base, g=np.float32(0.5)))[1]), "ValueError"),
+                 ("float array entry differs in the last bit", mk(dict(base, taps=np.array([1.0, 0.5, float(np.nextafter(0.25, 1))])))[1], "ValueError"),
+                 ("float array entries all tiny, one differs (1e-12 vs 3e-12)", (mk(dict(base, taps=np.array([1e-12, 3e-12])))[1], mk(dict(base, taps=np.array([1e-12, 1e-12])))[1]), "ValueError"),
+                 ("float grid differs by 1e-9 at this index", (mk(dict(base, SNR=np.array([0.0, 5.0 + 1e-9, 10.0])))[1], mk(dict(base, SNR=np.array([0.0, 5.0, 10.0])))[1]), "ValueError"),
+                 ("equal floats given as float and numpy float64", (mk(dict(base, g=np.float64(0.3)))[1], mk(dict(base, g=0.3))[1]), "ok"),
                  # the same combination saved under a longer grid is the same combination: accepted
                  ("longer grid, same value at this index", mk(dict(base, SNR=np.array([0, 5, 10, 15])))[1], "ok")]
         # 'rep_max' is the ONLY name whose value may differ: every other name is compared - in particular names that resemble it
